@@ -237,7 +237,15 @@ def gen_nexthop(rng, fam: tuple[int, int], shape: dict, tags: set) -> str:
         tags.add('ext-nexthop-v6')
     if safi != 128 and rng.random() < 0.25:
         tags.add('nexthop-link-local')
+        if rng.random() < 0.25:
+            # RFC 2545 3: "the Network Address of Next Hop field ... global address followed by link-local": the route's
+            # next hop is the FIRST address, also when it is the unspecified one (what a link-local-only speaker writes)
+            tags.add('nexthop-unspecified-global')
+            return '00' * 16 + ip6(rng, ll=True)
         return ip6(rng) + ip6(rng, ll=True)
+    if rng.random() < 0.04:
+        tags.add('nexthop-unspecified')
+        return base + '00' * 16
     return base + ip6(rng)
 
 
@@ -571,4 +579,9 @@ def boundary_cases(rng, shape: dict, unknown_codes: list[int]) -> list[dict]:
     n = gen_nlri(rng, pool, 2, 128, (2, 128) in aps, False)
     nh = '00' * 8 + '20010db8' + '00' * 11 + '01' + '00' * 8 + 'fe80' + '00' * 13 + '01'
     out.append({'w': [], 'a': [{'code': 1, 'f': ['0'], 'flags': '0100'}, {'code': 2, 'segs': [], 'f': ['-'], 'flags': '0100'}, {'code': 14, 'fam': (2, 128), 'nh': nh, 'nlris': [n], 'flags': '1000'}], 'n': [], 'tags': {'vpn6-nexthop-48', 'kind:boundary', 'reach-2.128'}})
+    # the unspecified address as the global part of a 32-byte next hop (and alone): the next hop reported is the
+    # first address of the field, whatever it is
+    for nh6, tag in (('00' * 16 + 'fe80' + '00' * 13 + '01', 'nexthop-unspecified-global'), ('00' * 16, 'nexthop-unspecified'), ('fe80' + '00' * 13 + '01', 'nexthop-link-local-alone')):
+        n6 = gen_nlri(rng, pool, 2, 1, (2, 1) in aps, False)
+        out.append({'w': [], 'a': [{'code': 1, 'f': ['0'], 'flags': '0100'}, {'code': 2, 'segs': [], 'f': ['-'], 'flags': '0100'}, {'code': 14, 'fam': (2, 1), 'nh': nh6, 'nlris': [n6], 'flags': '1000'}], 'n': [], 'tags': {tag, 'kind:boundary', 'reach-2.1'}})
     return out
